@@ -22,10 +22,12 @@ def demo():
     san = ''
     if '-fsanitize=address' in hdr: san = '-fsanitize=address'
     if '-fsanitize=thread' in hdr: san = '-fsanitize=thread'
+    import re as _re
+    extra = ' '.join(sorted(set(_re.findall(r'-Wl,[^ \\\n]+', hdr))))
     if os.path.exists(O + '/demo.sh'):
         rc, out = sh('sh %s/demo.sh' % O, timeout=1200)
         return rc, out[-1500:], 'sh demo.sh'
-    cmd = 'g++ -std=gnu++20 -g %s -I%s/src -I%s %s/demo.cc %s/_build/libphosg.a -lz -lpthread -o %s/demo' % (san, W, W, O, W, O)
+    cmd = 'g++ -std=gnu++20 -g %s -I%s/src -I%s %s/demo.cc %s/_build/libphosg.a -lz -lpthread %s -o %s/demo' % (san, W, W, O, W, extra, O)
     rc, out = sh(cmd)
     if rc != 0:
         return None, 'demo does not compile: ' + out[-1500:], cmd
